@@ -357,6 +357,11 @@ def _main(mod, tier, seed, replay):
         'K2: differential harness harness/%s (Rust, path dependency on the working tree, cfg %s) and tools/props/%s.py generators' % (
             ','.join(mod.CRATES), core.GUARD, mod.ID.lower()),
     ] + list(getattr(mod, 'TRUSTED', []))
+    if getattr(mod, 'EXTRA_PROP_FILES', []):
+        trusted.append('K1 source tie (%s): tools/props/src_translate.py (+ the parser of c17_translate.py) translates the pure helper and '
+                       'decision functions this property rests on from the Rust text on every run (coq/Generated/GenSrc*.v); trusted to read '
+                       'the subset of Rust described in docs/reports/SRC.md as rustc does; coq/Base/MachineIntT.v defines the width-generic '
+                       'operators and result shapes the generated text uses' % ', '.join(mod.EXTRA_PROP_FILES))
     coverage = {
         'obligations': run.obligations,
         'discharged': run.obligations if run.proof_ok else 0,
